@@ -551,7 +551,35 @@ def _written_by_predecessor(m, kind, cont, field):
     return False
 
 
+def start_only_in_initiators(ctx):
+    """COObjRdBufStart / COObjWrBufStart rewind the object's stream position.  In the SDO server only the functions that
+    OPEN a transfer may call them; every later refill / flush continues with COObjRdBufCont / COObjWrBufCont (a Start in a
+    continuation restarts the object: the middle blocks of a long upload repeat the first one)."""
+    m = ctx.m
+    INITIATORS = set(['COSdoInitUploadSegmented', 'COSdoInitDownloadSegmented', 'COSdoInitUploadBlock', 'COSdoInitDownloadBlock'])
+    n = 0
+    for fname, fn in sorted(m.funcs.items()):
+        if not fn.unit.endswith('co_ssdo.c'):
+            continue
+        for f2 in m.helper_closure(fname):
+            for x in walk(m.funcs[f2].body):
+                if x.k == 'call' and callee_name(x) in ('COObjRdBufStart', 'COObjWrBufStart'):
+                    n += 1
+                    props = ['C03'] if callee_name(x) == 'COObjRdBufStart' else ['C02']
+                    site = '%s: %s in %s' % (m.loc(f2, x), callee_name(x), fname)
+                    if fname in INITIATORS:
+                        ctx.ob(props, 'RF2-bufstart', fname, site, 'transfer initiator')
+                    else:
+                        ctx.ob(props, 'RF2-bufstart', fname, site, None)
+                        ctx.find(props, 'RF2-bufstart', fname, 'start-in-continuation:%s' % callee_name(x), m.loc(f2, x),
+                                 '%s calls %s: only the functions that open a transfer rewind the object; a continuation handler that '
+                                 'does so restarts the object in the middle of the transfer' % (fname, callee_name(x)))
+    ctx.inst('SDO2.bufstart-sites', n)
+    ctx.require_min(['C02', 'C03'], 'RF2-bufstart', n, 4, 'BufStart call sites in the SDO server')
+
+
 def run(ctx):
+    start_only_in_initiators(ctx)
     upload_templates(ctx)
     download_templates(ctx)
     buffer_stride(ctx)
